@@ -30,10 +30,12 @@ type FileSource struct {
 }
 
 type ResolvedJournal struct {
-	Primary   *ast.Journal
-	Files     map[string]*ast.Journal
-	FileOrder []string
-	Errors    []LoadError
+	Primary *ast.Journal
+	// PrimaryPath is the path of the file Primary was parsed from ("" when unknown).
+	PrimaryPath string
+	Files       map[string]*ast.Journal
+	FileOrder   []string
+	Errors      []LoadError
 }
 
 func NewResolvedJournal(primary *ast.Journal) *ResolvedJournal {
